@@ -11,6 +11,7 @@
 package hpipe
 
 import (
+	"unsafe"
 	"context"
 	"fmt"
 	"io"
@@ -185,15 +186,37 @@ type Probe struct {
 	Err     error
 	R       *dns.Msg // deep copy of qCtx.R() when the chain returned (nil: no response)
 	RespOpt *dns.OPT // deep copy of qCtx.RespOpt() at that moment
+	// OptArrays: backing arrays of the option lists of the query OPT and of the reply OPT of
+	// every query context seen so far (kept alive, so equal addresses mean shared memory)
+	OptArrays []unsafe.Pointer
 }
 
-func (p *Probe) Reset() { *p = Probe{} }
+// Reset forgets the last delivery (the option arrays seen so far are kept).
+func (p *Probe) Reset() { a := p.OptArrays; *p = Probe{}; p.OptArrays = a }
+
+// SharedOptArray reports whether two query contexts handed the same backing
+// array to their option lists (appending to one then writes into the other's).
+func (p *Probe) SharedOptArray() bool {
+	seen := map[unsafe.Pointer]bool{}
+	for _, a := range p.OptArrays {
+		if seen[a] {
+			return true
+		}
+		seen[a] = true
+	}
+	return false
+}
 
 func (p *Probe) Exec(ctx context.Context, qCtx *query_context.Context, next sequence.ChainWalker) error {
 	err := next.ExecNext(ctx, qCtx)
 	p.Ran++
 	p.Err = err
 	p.R, p.RespOpt = nil, nil
+	for _, o := range []*dns.OPT{qCtx.QOpt(), qCtx.RespOpt()} {
+		if o != nil && cap(o.Option) > 0 {
+			p.OptArrays = append(p.OptArrays, unsafe.Pointer(unsafe.SliceData(o.Option[:cap(o.Option)])))
+		}
+	}
 	if r := qCtx.R(); r != nil {
 		p.R = r.Copy()
 	}
